@@ -1,7 +1,7 @@
 import logging
 from typing import Dict, List, Optional, Union, cast
 
-from indi.message import EnableBLOB, IndiMessage, NewBLOBVector, const
+from indi.message import EnableBLOB, IndiMessage, SetBLOBVector, const
 from indi.routing import Client, Device
 
 logger = logging.getLogger(__name__)
@@ -49,7 +49,7 @@ class Router:
             del self.blob_routing[client]
 
     def process_message(self, message: IndiMessage, sender: SenderType = None):
-        is_blob = isinstance(message, NewBLOBVector)
+        is_blob = isinstance(message, SetBLOBVector)
 
         if message.from_client:
             if isinstance(message, EnableBLOB):
